@@ -203,7 +203,7 @@ func (fr *frame) set(key ssa.Value, v value) {
 // isControlPanic reports panics that belong to the engine, not the target.
 func isControlPanic(p interface{}) bool {
 	switch p.(type) {
-	case engineError, pathAbort, violationPanic:
+	case engineError, pathAbort, violationPanic, schedKill:
 		return true
 	}
 	return false
@@ -675,6 +675,9 @@ func callSSA(i *interpreter, caller *frame, callpos token.Pos, fn *ssa.Function,
 	i.depth++
 	if i.depth > i.maxDepth {
 		i.depth = 0
+		if i.ps != nil && i.ps.lastPos == "" {
+			i.ps.lastPos = fn.String() + callerChain(caller)
+		}
 		panic(pathAbort{"depth"})
 	}
 
